@@ -7,6 +7,7 @@ import (
 	"encoding/hex"
 	"encoding/json"
 	"fmt"
+	"github.com/Jeffail/gabs/v2"
 	"os"
 	"sort"
 	"strings"
@@ -106,7 +107,39 @@ func verifChain(line string) (res string) {
 		return "bad-header"
 	}
 	plugins, _ := doc["plugins"].([]any)
+	// the second step of `terway-cli cni`: record the runtime configuration of the list just generated (lists with a
+	// chainer are left out: that branch mounts the bpf file system)
+	hasChainer := false
+	for _, p := range plugins {
+		if m, ok := p.(map[string]any); ok && m["type"] == pluginTypeCilium {
+			hasChainer = true
+		}
+	}
+	if !hasChainer {
+		if container, err := gabs.ParseJSON([]byte(out)); err == nil {
+			if verifStorePanics(container) {
+				return "panic:store"
+			}
+		}
+	}
 	return verifShow(plugins)
+}
+
+func verifStorePanics(container *gabs.Container) (panicked bool) {
+	defer func() {
+		if r := recover(); r != nil {
+			panicked = true
+		}
+	}()
+	f, err := os.CreateTemp("", "verif-nodecap-*")
+	if err != nil {
+		return false
+	}
+	name := f.Name()
+	_ = f.Close()
+	defer os.Remove(name)
+	_ = storeRuntimeConfig(name, container)
+	return false
 }
 
 func verifParse(t []string) (any, []string, bool) {
